@@ -26,6 +26,8 @@
 (*             D20  DamID2_8bp_noCA capture start umiLength+barcodeLength-1 (DamID.py:86-88, copied *)
 (*                                  from DamID2 whose barcodes contain the CA overhang): the last   *)
 (*                                  barcode base is emitted as first insert base.                  *)
+(*             D21  DamID2andT_3u4b3u6b  when a pair matches BOTH whitelists, DamID.py:344-346 returns  *)
+(*                                  the loop variable (ONE TaggedRecord) instead of the list of records.*)
 (* Mates are 1-based here (code: 0-based), positions 0-based half-open like Python slices.         *)
 EXTENDS Integers, Sequences, FiniteSets, TLC, Util, Json
 
@@ -124,8 +126,12 @@ L == [
   DamID2_3u4b3u6b |-> << SCA("DamID2_scattered_8bp", {1, 2}, 3, 4, 3, 4, NT) >>,
   DamID2andT_3u4b3u4b |-> << SCA("DamID2_scattered_8bp", {2}, 3, 4, 3, 4, NT),
                              SCA("CS2_scattered_8bp", {2}, 3, 4, 3, 4, <<"skipT", "none">>) >>,
+  (* third branch: the pair matches both whitelists; the code keeps the transcriptome records (emitted from 14, poly-T pruned)
+     and overwrites their tags with the DamID ones (barcode 3:7+10:16, overhang 16:18), so 14..17 are tagged AND emitted *)
   DamID2andT_3u4b3u6b |-> << SCA("DamID2_scattered_10bp", {2}, 3, 4, 3, 6, NT),
-                             SCA("CS2_scattered_8bp", {2}, 3, 4, 3, 4, <<"skipT", "none">>) >>
+                             SCA("CS2_scattered_8bp", {2}, 3, 4, 3, 4, <<"skipT", "none">>),
+                             [SCA("DamID2_scattered_10bp", {2}, 3, 4, 3, 6, <<"skipT", "none">>) EXCEPT
+                                 !.ins = <<14, 0>>, !.both = {<<1, 14>>, <<1, 15>>, <<1, 16>>, <<1, 17>>}] >>
 ]
 Strategies == DOMAIN L
 
@@ -193,13 +199,14 @@ StrategyVerdict(s, R, Q, out, Enc(_), Comp(_), IsT(_)) ==
 (*                 xs : extra leading segments counted into the capture start (restriction bisulfite)  *)
 (*   kind "scat" : DamID2_SCA(first_umi_len fu, first_bc_len fb, second_umi_len su, second_barcode_len sb)*)
 (*   kind "illu" : IlluminaBaseDemultiplexer                                                          *)
-(*   post        : content dependent step after the base class ("none","clip1","trim2","skipT1")       *)
+(*   post        : content dependent step after the base class ("none","clip1","trim2","skipT1",       *)
+(*                 "skipT1_last" = skipT1, then only the LAST record is returned (D21))                 *)
 (*   need        : numbers of records for which the subclass does not raise NonMultiplexable          *)
 U(ur, us, ul, br, bs, bl, rr, rl, cap1, lig, ligr, post, need) ==
     [kind |-> "umibc", ur |-> ur, us |-> us, ul |-> ul, br |-> br, bs |-> bs, bl |-> bl, rr |-> rr, rl |-> rl,
      cap1 |-> cap1, lig |-> lig, ligr |-> ligr, xs |-> <<>>, post |-> post, need |-> need]
 SC(fu, fb, su, sb, post, need) == [kind |-> "scat", fu |-> fu, fb |-> fb, su |-> su, sb |-> sb, post |-> post, need |-> need,
-                                   lig |-> fu + fb + su + sb, ligr |-> "all"]
+                                   lig |-> fu + fb + su + sb, ligr |-> "all", cap1 |-> -1]
 ANY == {1, 2}
 aDamID2 == U(1, 0, 3, 1, 3, 10, 0, 0, 12, 11, "all", "none", ANY)
 aCHIC(rr, rl, ligr, post, need) == U(1, 0, 3, 1, 3, 8, rr, rl, 12, 11, ligr, post, need)
@@ -234,7 +241,8 @@ A == [
   DamAndT         |-> << [aDamID2 EXCEPT !.need = {2}], [U(1, 0, 6, 1, 6, 8, 2, 6, -1, -1, "", "skipT1", {2}) EXCEPT !.need = {2}] >>,
   DamID2_3u4b3u6b |-> << SC(3, 4, 3, 4, "none", ANY) >>,
   DamID2andT_3u4b3u4b |-> << SC(3, 4, 3, 4, "none", {2}), SC(3, 4, 3, 4, "skipT1", {2}) >>,
-  DamID2andT_3u4b3u6b |-> << SC(3, 4, 3, 6, "none", {2}), SC(3, 4, 3, 4, "skipT1", {2}) >>
+  DamID2andT_3u4b3u6b |-> << SC(3, 4, 3, 6, "none", {2}), SC(3, 4, 3, 4, "skipT1", {2}),
+                             [SC(3, 4, 3, 6, IF Variant = "impl" THEN "skipT1_last" ELSE "skipT1", {2}) EXCEPT !.cap1 = 14] >>                  \* D21
 ]
 ASSUME DOMAIN A = Strategies /\ \A s \in Strategies : Len(A[s]) = Len(L[s])
 (* preconditions under which UmiBarcodeDemuxMethod.__init__ does not raise NotImplementedError *)
@@ -245,7 +253,7 @@ ASSUME \A s \in Strategies : \A i \in DOMAIN A[s] : LET a == A[s][i] IN
 (* constructor arithmetic *)
 CaptureStarts(a) ==
     CASE a.kind = "illu" -> <<0, 0>>
-      [] a.kind = "scat" -> <<a.fu + a.fb + a.su + a.sb, 0>>                                        \* DamID.py:235-238
+      [] a.kind = "scat" -> <<IF a.cap1 >= 0 THEN a.cap1 ELSE a.fu + a.fb + a.su + a.sb, 0>>         \* DamID.py:235-238 (cap1: records of the other sub-demultiplexer)
       [] a.kind = "umibc" ->
             LET xlen == FoldLeft(LAMBDA acc, x : acc + x.n, 0, a.xs)
                 c1 == [<<0, 0>> EXCEPT ![a.br] = IF a.ul = 0 THEN a.bl ELSE a.bl + a.ul + xlen]    \* :553-567 / restrictionbisulfite.py:80
@@ -363,9 +371,10 @@ Post(k) ==
                 /\ k <= Len(recs[2].seq)
                 /\ recs' = [recs EXCEPT ![2].seq = Take(@, k), ![2].qual = Take(@, k)]
                 /\ pc' = "done" /\ UNCHANGED <<s, bi, reads, loc>>
-         [] Arg.post = "skipT1" ->
+         [] Arg.post \in {"skipT1", "skipT1_last"} ->
                 /\ k <= Max2(0, Len(recs[1].seq) - 1)
-                /\ recs' = [recs EXCEPT ![1].seq = DropN(@, k), ![1].qual = DropN(@, k)]
+                /\ LET pruned == [recs EXCEPT ![1].seq = DropN(@, k), ![1].qual = DropN(@, k)] IN
+                   recs' = IF Arg.post = "skipT1_last" THEN << pruned[Len(pruned)] >> ELSE pruned
                 /\ pc' = "done" /\ UNCHANGED <<s, bi, reads, loc>>
 
 (* the oligo is absent (CHICTV) / poly-T read (TCHIC): NonMultiplexable after the base class accepted *)
